@@ -734,6 +734,11 @@ theorem C14_rtt_changes_only_by_sys (s : Sys F) (e : Ev) (j : Nat) (l l' : FLink
     rcases rtt_run hrun (hn _ (by decide)) (hn _ (by decide)) with h | ⟨hr, -⟩
     · exact .inl h
     · exact absurd hr (hn _ (by decide))
+  | syncTimeout =>
+    have hn : ∀ op, op ≠ Op.syncTimeout → ¬ evOps s .syncTimeout j op := fun op hop hA => hop hA
+    rcases rtt_run hrun (hn _ (by decide)) (hn _ (by decide)) with h | ⟨hr, -⟩
+    · exact .inl h
+    · exact absurd hr (hn _ (by decide))
 
 /-- **Along any run** (`C14_sample_only_from_echo_sys`): for every run `pre ++ [e]` of the shell from ANY
 state, the last event changes the FILTER state of link `j`'s RTT tracker only
